@@ -273,8 +273,12 @@ func (fx *factsCtx) coqPkg(p *packages.Package, withConsts bool) string {
 			}
 		}
 	}
-	return fmt.Sprintf("{| p_path := %s; p_name := %s; p_imports := %s; p_consts := %s; p_type_names := %s |}",
-		coqStr(p.PkgPath), coqStr(p.Name), coqStrList(imports), coqListNL(consts), coqList(typeNames))
+	var scopeAll []string
+	if withConsts {
+		scopeAll = scope.Names()
+	}
+	return fmt.Sprintf("{| p_path := %s; p_name := %s; p_imports := %s; p_consts := %s; p_type_names := %s; p_scope := %s |}",
+		coqStr(p.PkgPath), coqStr(p.Name), coqStrList(imports), coqListNL(consts), coqList(typeNames), coqStrList(scopeAll))
 }
 
 // coqProg renders the whole program. Constants and scope type names are listed for user packages only
